@@ -21,6 +21,11 @@ impl WindowExecutor {
         #[for_await]
         for chunk in child {
             let chunk = chunk?;
+            // a child may yield a chunk without rows (the in-memory scan does for a chunk whose
+            // rows are all deleted): nothing to append, and `take()` returns None for it
+            if chunk.cardinality() == 0 {
+                continue;
+            }
             let mut builder = DataChunkBuilder::new(&self.types, chunk.cardinality() + 1);
             for i in 0..chunk.cardinality() {
                 Evaluator::new(&self.exprs).agg_list_append(&mut states, chunk.row(i).values());
